@@ -72,6 +72,10 @@ type (
 
 		Header *parser.PacketHeader
 		Data   []any
+
+		// The packet as it was broadcast. Encoding rewrites Header and the binary
+		// values of Data in place, so a missed packet is replayed from here.
+		Buffers [][]byte
 	}
 )
 
